@@ -707,6 +707,11 @@ func (v *fnVC) convert(i *ssa.Convert, st *State) {
 		sl := mk(sapp("mkSlice", a.S, bvLit(0, 64), sapp("slen", x.S), sapp("slen", x.S)), sSlice).withGo(i.Type())
 		sl.Op, sl.Args = "bytesof", []*T{x}
 		v.vals[i] = sl
+		if _, ok := v.w.specs.Funcs["strOf"]; ok {
+			// the byte-string view (strOf) of the converted slice is the string itself
+			e.usedSpec["strOf"] = true
+			e.assume(mk(sapp("=", sapp("spec$strOf", sapp("sbytes", x.S), bvLit(0, 64), sapp("slen", x.S)), x.S), sBool))
+		}
 	case x.Sort.Kind == KSlice && to.Kind == KStr:
 		e.decl("bytes2s", "(declare-fun bytes2s ((Array (_ BitVec 64) (_ BitVec 8)) (_ BitVec 64) (_ BitVec 64)) Str)")
 		h := st.get(elemHeap(sU8), arrSort(sRef, arrSort(sI64, sU8)))
@@ -714,6 +719,11 @@ func (v *fnVC) convert(i *ssa.Convert, st *State) {
 		e.assume(mk(sapp("=", sapp("slen", r.S), sapp("sl_len", x.S)), sBool))
 		if x.Op == "bytesof" {
 			e.assume(tEq(r, x.Args[0]))
+		}
+		if _, ok := v.w.specs.Funcs["strOf"]; ok {
+			// string(b) is the byte-string view of b
+			e.usedSpec["strOf"] = true
+			e.assume(mk(sapp("=", r.S, sapp("spec$strOf", sapp("select", h.S, sapp("sl_arr", x.S)), sapp("sl_off", x.S), sapp("sl_len", x.S))), sBool))
 		}
 	case x.Sort.Kind == KBV && to.Kind == KStr:
 		// string(rune) / string(byte)
